@@ -84,6 +84,8 @@ type Exec struct {
 	covered  map[string]bool // clause labels reached on a feasible path
 	vacuity  []string
 	specErr  string
+	unboxed     map[string]Val            // interface values (tag|payload) -> the value that was boxed
+	varargs     map[string]map[int]Val    // varargs arrays (by reference symbol) -> values stored per index
 	boxed       map[string]Val  // slices converted to interface values (sort.Sort arguments), by payload symbol
 	siteAlias   string // interface-method alias of the call site being processed
 	constrained map[string]bool // fresh call results that a branch has already tested on this run
@@ -724,6 +726,9 @@ func (x *Exec) step(st *State, fr *Frame, instr ssa.Instruction) {
 		p := x.allocObj(st, et, i.Comment, true)
 		pv := Val{K: KPtr, Typ: i.Type(), P: p}
 		x.bind(fr, i, pv)
+		if i.Comment == "varargs" {
+			x.varargs[p.Base.S] = map[int]Val{}
+		}
 		if _, isStruct := structOf(et); !isStruct && leavesOf(et) != nil && i.Comment != "complit" && i.Comment != "varargs" && i.Comment != "new" && i.Comment != "makeslice" {
 			// a named local that escapes (captured by a closure later on, or address taken)
 			st.localCells = append(st.localCells, &localCell{p: p, t: et, captured: addressEscapes(i)})
@@ -746,6 +751,14 @@ func (x *Exec) step(st *State, fr *Frame, instr ssa.Instruction) {
 			}
 			x.callSite(st, fr, "store", "store:"+name, []Val{x.convertTo(st, v, i.Val.Type()), base}, nil, "before", i)
 			x.addEvent(st, "store", "store:"+name, []Val{x.convertTo(st, v, i.Val.Type()), base})
+		}
+		if a.P.Kind == PElem && v.K == KIface && isNumLit(a.P.Idx.S) {
+			if m, ok := x.varargs[a.P.Arr.S]; ok {
+				if o, ok := x.unboxed[v.Fs[0].T.S+"|"+v.Fs[1].T.S]; ok {
+					n, _ := strconv.Atoi(a.P.Idx.S)
+					m[n] = o
+				}
+			}
 		}
 		x.storePtr(st, a.P, i.Val.Type(), x.convertTo(st, v, i.Val.Type()))
 	case *ssa.UnOp:
@@ -1164,6 +1177,16 @@ func (x *Exec) valEq(a, b Val) Term {
 }
 
 func (x *Exec) makeIface(st *State, v Val, from, to types.Type) Val {
+	r := x.makeIface1(st, v, from, to)
+	if r.K == KIface && v.K != KIface {
+		o := v
+		o.Typ = from
+		x.unboxed[r.Fs[0].T.S+"|"+r.Fs[1].T.S] = o
+	}
+	return r
+}
+
+func (x *Exec) makeIface1(st *State, v Val, from, to types.Type) Val {
 	if v.K == KIface {
 		v.Typ = to
 		return v
